@@ -1,10 +1,10 @@
 package main
 
 import (
-	"go/types"
-	"os"
 	"fmt"
 	"go/token"
+	"go/types"
+	"os"
 	"sort"
 	"strings"
 
@@ -259,6 +259,35 @@ func ruleC18_3(c *Ctx, r *Rep) {
 			}
 			r.Check("C18.3", fmt.Sprintf("C18.3:%s#%d@%s", mode, i+1, c.Key(f)), a.instr.Pos(), ok, "under Set.mu",
 				"the fault table is accessed ("+a.what+", "+mode+") in "+c.Key(f)+" without the required lock")
+			// check-then-act: what a write puts into the table is computed inside the same exclusive section. A value
+			// that comes from a read made under the shared lock, or from a helper that takes (and releases) the mutex
+			// itself, is a snapshot of an earlier state: writing it back erases whatever was added in between.
+			if a.write && ok {
+				var ops []ssa.Value
+				switch x := a.instr.(type) {
+				case *ssa.MapUpdate:
+					ops = append(ops, x.Key, x.Value)
+				case *ssa.Call:
+					ops = append(ops, x.Call.Args[1:]...)
+				}
+				stale := ""
+				for v := range valueClosure(ops) {
+					switch x := v.(type) {
+					case *ssa.Call:
+						if cal := x.Call.StaticCallee(); cal != nil && c.inModule(cal) && takesMutex(cal, "Set.mu") {
+							stale = "the result of " + c.Key(cal) + ", which takes and releases the lock itself"
+						}
+					}
+					if in, isI := v.(ssa.Instruction); isI {
+						for _, b := range acc {
+							if b.instr == in && !b.write && !li.heldAt(in)["f:Set.mu"] {
+								stale = "a " + b.what + " of the table made without the exclusive lock"
+							}
+						}
+					}
+				}
+				r.Check("C18.3", fmt.Sprintf("C18.3:fresh-write#%d@%s", i+1, c.Key(f)), a.instr.Pos(), stale == "", "", "the value written to the fault table derives from "+stale+": between that read and this write another caller can add or consume faults, and the stale list written back erases them (a configured fault never fires)")
+			}
 		}
 	}
 	r.Floor("C18.3", n, 6)
@@ -649,7 +678,9 @@ func ruleC19_1(c *Ctx, r *Rep) {
 	// the function that performs the HTTP round trip: a goroutine closure of Send, or a private method it starts
 	var findBody func(f *ssa.Function)
 	findBody = func(f *ssa.Function) {
-		if len(callsIn(f, false, func(cal *ssa.Function, _ ssa.CallInstruction) bool { return cal.Name() == "Do" && strings.HasSuffix(fnPkgPath(cal), "net/http") })) > 0 && f != send {
+		if len(callsIn(f, false, func(cal *ssa.Function, _ ssa.CallInstruction) bool {
+			return cal.Name() == "Do" && strings.HasSuffix(fnPkgPath(cal), "net/http")
+		})) > 0 && f != send {
 			body = f
 		}
 		for _, a := range f.AnonFuncs {
@@ -1149,3 +1180,40 @@ func ruleC19_5(c *Ctx, r *Rep) {
 }
 
 func loopExitDominates(l *loop, b *ssa.BasicBlock) bool { return dominates(l.Header, b) }
+
+// valueClosure: the values the given ones are computed from, inside their function (operands, transitively).
+func valueClosure(vs []ssa.Value) map[ssa.Value]bool {
+	seen := map[ssa.Value]bool{}
+	var walk func(v ssa.Value)
+	walk = func(v ssa.Value) {
+		if v == nil || seen[v] || len(seen) > 4000 {
+			return
+		}
+		seen[v] = true
+		if in, ok := v.(ssa.Instruction); ok {
+			for _, o := range in.Operands(nil) {
+				if *o != nil {
+					walk(*o)
+				}
+			}
+		}
+	}
+	for _, v := range vs {
+		walk(v)
+	}
+	return seen
+}
+
+// takesMutex: fn (or an unexported helper it calls directly) locks a mutex whose key ends in suffix.
+func takesMutex(fn *ssa.Function, suffix string) bool {
+	for _, b := range fn.Blocks {
+		for _, in := range b.Instrs {
+			if ci, ok := in.(ssa.CallInstruction); ok {
+				if key, op, isL := lockOp(ci); isL && (op == "Lock" || op == "RLock") && strings.HasSuffix(key, suffix) {
+					return true
+				}
+			}
+		}
+	}
+	return false
+}
